@@ -266,21 +266,43 @@ def replayItem (r : Replay) (item : String) : Except String Replay :=
           | .error e => .error s!"{item}: {e}"
   | _ => .error s!"malformed trace item {item}"
 
+def roleOf (item : String) : String := (item.splitOn ":").headD ""
+
+/-- The next item to replay: the first of the next `window` items that replays and whose goroutine has
+no earlier item among those skipped.  A yield point is recorded AFTER the operation it stands for and
+not atomically with it, so the recorded order is exact per goroutine (program order) but only
+approximate across goroutines (seen under load: a `parser.drained` recorded after the `input.closed`
+that the drained EOF made possible; `input.eof` recorded before the `suspend.da1` whose reply woke the
+reader): the trace is accepted if some interleaving that respects every goroutine's own order is a
+run of the LTS. -/
+def pickNext (r : Replay) : Nat → List String → List String → Except String (Replay × List String)
+  | _, _, [] => .error "empty"
+  | 0, _, x :: _ => .error s!"no interleaving replays near {x}"
+  | w + 1, skipped, x :: rest =>
+    if skipped.any (fun y => roleOf y == roleOf x) then pickNext r w (skipped ++ [x]) rest
+    else match replayItem r x with
+      | .ok r' => .ok (r', skipped ++ rest)
+      | .error e =>
+        match pickNext r w (skipped ++ [x]) rest with
+        | .ok res => .ok res
+        | .error _ => .error e
+
 /-- Replay with one of two strategies for the labels that have no yield point (parser steps, the
 terminal's reply, the application's receives): `eager = false` takes them only when the next item
 needs them, `eager = true` lets them run as far as they can after every item. -/
-def replayTraceWith (eager : Bool) (r : Replay) : List String → Except String Replay
-  | [] => .ok r
-  | x :: rest => match replayItem r x with
-    | .ok r' => replayTraceWith eager (if eager then { r' with s := runHidden fuelW r'.s } else r') rest
+def replayTraceWith (eager : Bool) : Nat → Replay → List String → Except String Replay
+  | _, r, [] => .ok r
+  | 0, _, _ => .error "trace too long"
+  | n + 1, r, items => match pickNext r 6 [] items with
+    | .ok (r', rest) => replayTraceWith eager n (if eager then { r' with s := runHidden fuelW r'.s } else r') rest
     | .error e => .error e
 
 /-- The trace is accepted if one of the two strategies replays it (weak trace inclusion, searched
 over two schedules of the hidden labels). -/
 def replayTrace (r : Replay) (items : List String) : Except String Replay :=
-  match replayTraceWith false r items with
+  match replayTraceWith false (items.length + 1) r items with
   | .ok r' => .ok r'
-  | .error e => match replayTraceWith true r items with
+  | .error e => match replayTraceWith true (items.length + 1) r items with
     | .ok r' => .ok r'
     | .error e2 => .error (e ++ " / eager: " ++ e2)
 
